@@ -179,6 +179,39 @@ impl Engine for WireEngine {
                     }
                 }
             },
+            ["framec", k, h] => match (k.parse::<usize>(), unhex(h)) {
+                (Ok(k), Some(d)) if k >= 1 => {
+                    let mut r = ChunkReader { data: &d, pos: 0, chunk: k };
+                    match read_message(&mut r) {
+                        Ok(m) => format!("ok {} rest={}", hex_or_dash(&m), d.len() - r.pos),
+                        Err(e) => format!("err {}", err_class(&e)),
+                    }
+                }
+                _ => "bad-op".into(),
+            },
+            ["frames", k, h] => match (k.parse::<usize>(), unhex(h)) {
+                (Ok(k), Some(d)) if k >= 1 => {
+                    // the way server and client read: a BufReader over the transport, message after message
+                    let inner = ChunkReader { data: &d, pos: 0, chunk: k.max(1) };
+                    let mut r = std::io::BufReader::with_capacity(k, inner);
+                    let mut out: Vec<String> = Vec::new();
+                    loop {
+                        match read_message(&mut r) {
+                            Ok(m) => out.push(format!("ok {}", hex_or_dash(&m))),
+                            Err(e) => {
+                                out.push(format!("err {}", err_class(&e)));
+                                break;
+                            }
+                        }
+                        if out.len() > d.len() + 2 {
+                            out.push("PROPFAIL endless".into());
+                            break;
+                        }
+                    }
+                    out.join(" ")
+                }
+                _ => "bad-op".into(),
+            },
             ["wframe", h] => match unhex(h) {
                 None => "bad-op".into(),
                 Some(d) => {
@@ -252,6 +285,30 @@ impl Engine for WireEngine {
             };
             cases.push(Case::new(format!("frame {}", hex_or_dash(&d)), &["frame", tag, "nt"]));
         }
+        // (3b) the same through transports with short reads, and several frames through a buffered reader
+        for _ in 0..1200 * scale {
+            let nframes = 1 + rng.below(4) as usize;
+            let mut d = Vec::new();
+            for _ in 0..nframes {
+                let body = rng.rbytes(0, 24);
+                d.extend((body.len() as u32).to_le_bytes());
+                d.extend(body);
+            }
+            match rng.below(4) {
+                0 => {
+                    let cut = rng.below(d.len() as u64 + 1) as usize;
+                    d.truncate(cut);
+                }
+                1 => d.extend(rng.rbytes(0, 5)),
+                _ => {}
+            }
+            let k = 1 + rng.below(9);
+            if rng.chance(1, 3) {
+                cases.push(Case::new(format!("framec {} {}", k, hex_or_dash(&d)), &["framec", "short-reads", "nt"]));
+            } else {
+                cases.push(Case::new(format!("frames {} {}", k, hex_or_dash(&d)), &["frames", "short-reads", "nt"]));
+            }
+        }
         for _ in 0..300 * scale {
             let d = rng.rbytes(0, 64);
             cases.push(Case::new(format!("wframe {}", hex_or_dash(&d)), &["wframe"]));
@@ -260,6 +317,22 @@ impl Engine for WireEngine {
             cases.push(Case::new(format!("wframezeros {}", n), &["wframe-cap-boundary", "nt"]));
         }
         cases
+    }
+}
+
+/// A transport that hands out at most `chunk` bytes per `read` call (short reads, as a socket does).
+struct ChunkReader<'a> {
+    data: &'a [u8],
+    pos: usize,
+    chunk: usize,
+}
+
+impl std::io::Read for ChunkReader<'_> {
+    fn read(&mut self, buf: &mut [u8]) -> std::io::Result<usize> {
+        let n = buf.len().min(self.chunk).min(self.data.len() - self.pos);
+        buf[..n].copy_from_slice(&self.data[self.pos..self.pos + n]);
+        self.pos += n;
+        Ok(n)
     }
 }
 
